@@ -28,7 +28,9 @@ fn main() {
         }
     }
     // silence the default panic hook: panics are caught per case and reported by class
-    std::panic::set_hook(Box::new(|_| {}));
+    if std::env::var("NVH_PANIC").is_err() {
+        std::panic::set_hook(Box::new(|_| {}));
+    }
     let mut ctx = Ctx::new(prop, seed, thorough);
     if mode == "replay" {
         ctx.replay_only = Some(rest);
